@@ -159,6 +159,55 @@ def no_hidden_state(ctx, R, rule_id, modules, classes=None, allow=()):
         for name, val in module_globals(P, mn).items():
             watch[(mn, name)] = val
     n_checked = 0
+    # fields that alias a watched module-level object: `self.attr = G` / `self.attr = G[k]` (a reference, not a copy)
+    field_alias = {}
+    for f in P.funcs.values():
+        g0 = f
+        while g0 is not None and g0.cls is None:
+            g0 = g0.parent
+        if g0 is None or not g0.params:
+            continue
+        selfn = g0.params[0]
+        for n in walk_local(f.node):
+            if isinstance(n, ast.Assign) and _is_ref_expr(n.value):
+                for t in n.targets:
+                    if isinstance(t, ast.Attribute) and isinstance(t.value, ast.Name) and t.value.id == selfn:
+                        for r in _roots(n.value):
+                            if r in T.locals.get(f.qual, ()):
+                                continue
+                            hm, hn = global_home(P, f.module, r)
+                            if hm is not None and (hm, hn) in watch:
+                                field_alias.setdefault((g0.cls.qual, t.attr), set()).add((hm, hn))
+    for (cq, attr), gs in sorted(field_alias.items()):
+        c = P.classes[cq]
+        for k in P.subclasses(c):
+            for m in P.funcs.values():
+                g0 = m
+                while g0 is not None and g0.cls is None:
+                    g0 = g0.parent
+                if g0 is None or g0.cls is not k or not g0.params:
+                    continue
+                selfn = g0.params[0]
+                for n in walk_local(m.node):
+                    hit = None
+                    if isinstance(n, (ast.Assign, ast.AugAssign, ast.Delete)):
+                        for t in (n.targets if not isinstance(n, ast.AugAssign) else [n.target]):
+                            if isinstance(t, ast.Subscript) and ntext(t.value).startswith("%s.%s" % (selfn, attr)):
+                                hit = "stores into"
+                    if isinstance(n, ast.Call) and isinstance(n.func, ast.Attribute) and n.func.attr in MUTATORS and ntext(n.func.value).startswith("%s.%s" % (selfn, attr)):
+                        hit = "mutates (.%s)" % n.func.attr
+                    if hit:
+                        for g in sorted(gs):
+                            R.bad(rule_id, "%s|field %s aliases %s.%s" % (m.qual, attr, g[0], g[1]), "%s:%s (%s)" % (m.module.path, n.lineno, m.qual), "`%s` %s self.%s, which %s binds to the module-level object %s.%s itself (no copy): every instance shares and changes it" % (ntext(n)[:80], hit, attr, cq, g[0], g[1]))
+    # module attributes assigned at run time: `othermodule.NAME = ...`
+    for f in P.funcs.values():
+        for n in walk_local(f.node):
+            if isinstance(n, (ast.Assign, ast.AugAssign)):
+                for t in (n.targets if isinstance(n, ast.Assign) else [n.target]):
+                    if isinstance(t, ast.Attribute) and isinstance(t.value, ast.Name) and t.value.id not in T.locals.get(f.qual, ()):
+                        imp = f.module.imports.get(t.value.id)
+                        if imp is not None and imp[0] == "module" and imp[1].startswith("labella.") and (not modules or imp[1].split(".", 1)[1] in modules or f.module.name in modules):
+                            R.bad(rule_id, "%s|module attribute %s.%s" % (f.qual, t.value.id, t.attr), "%s:%s (%s)" % (f.module.path, n.lineno, f.qual), "`%s` rebinds the module-level name %s.%s at run time: later calls in the same process see the changed value" % (ntext(n)[:80], imp[1], t.attr))
     # 1/2: mutation of watched module-level objects from any function of the package
     for f in P.funcs.values():
         if f.is_lambda:
